@@ -461,7 +461,7 @@ func Run(c *lib.Ctx) {
 	c.Rule = "a case is one handle-returning step (set/del/clear/mut/imm) of a history, followed by full re-reads of receiver, result and retained snapshots; distinct by (history number, operation line)"
 	c.Assumptions = []string{
 		"mutableMap.Immutable() returns a view of the same Go map: later writes through the source mutable map show through that view (DESIGN.md §7 row 26). The statement speaks of maps *derived from* a snapshot; model, reference dictionary and theorems follow that reading",
-		"bucket arrays are stored by value in the model's tables (the fixed code never writes an installed bucket array); table sharing and in-place table writes are modelled with addresses",
+		"the model addresses bucket arrays, Go maps and mutableMap objects (immutableMap.mutable() copies the Go map and shares the bucket arrays); the by-value content of a Go map is what is compared",
 		"Map.Interface()/Map() are not observed (they panic on unhashable keys such as binaries by design of Go maps)",
 	}
 	c.Trusted = []string{"harness/lib/valwire.go", "the oracle's own reference dictionary (association list keyed by types.Equal)"}
